@@ -263,7 +263,7 @@ Proof.
   rewrite E1, E2 in H. exact H.
 Qed.
 
-(* the admitted shape is the smallest one with its tile count *)
+(* the accepted shape is the smallest one with its tile count *)
 Lemma smallest_shape outer k t : 0 < outer -> 0 < t -> cdiv outer t = k -> cdiv outer k <= t.
 Proof.
   intros Ho Ht <-. apply cdiv_ub; [pose proof (cdiv_pos outer t); lia|].
